@@ -22,6 +22,7 @@ RULE = ('process programs (sync/async steps, waits with resume values, continuat
         'their inputs; inputs None / {} / non-empty; every way of ending) and outline WorkChains (random ASTs to depth 3 with if/elif/else bodies '
         'of up to 4 steps, loops, returns) x every subset of <=2 (thorough 3) boundaries as crash points + "all boundaries"; distinct by '
         '(program, inputs, crash set, transport); non-trivial when >=1 restore happened')
+RULE += ('; also: live persisters with the writing instance running on (lost work), mid-step saves, another loop being current at load time, aliased context objects, checkpoints written from the paused hook of a pause requested inside a step')
 ASSUMPTIONS = ['steps depend only on persisted state by construction (trace and scripts live in persisted members / ctx / inputs)',
                'WorkChains waiting on futures are not checkpoint points (they cannot be saved)']
 REQUIRED = ['paused_hook_checkpoints', 'restores', 'kinds/process', 'kinds/outline', 'transport/pickle', 'crash_in_wait', 'multi_restore', 'traces_compared', 'ctx_compared',
